@@ -14,6 +14,9 @@ use vlib::engine::{CaseRec, Runner, Tier, Violation};
 use vlib::props;
 use vlib::real;
 
+#[global_allocator]
+static GLOBAL: vlib::alloc::CountingAlloc = vlib::alloc::CountingAlloc;
+
 const SLOT: usize = (1 << 20) + 8192;
 const SLOTS: usize = 64;
 
@@ -241,7 +244,12 @@ fn slot_to_rec(slot: &[u8]) -> CaseRec {
     let mut rec = CaseRec::new("crash", real::Entry::from_u8(slot[0]), slot[1], cap, slot[real::SLOT_HDR..].to_vec());
     rec.place = vlib::arena::Placement::from_code(slot[2]);
     rec.backend = slot[3];
-    rec.aux = vec![slot[0] as u64, slot[4] as u64, slot[5] as u64];
+    rec.aux = vec![slot[5] as u64, slot[4] as u64];
+    if slot[7] == 0xC1 {
+        // direct scanner call (C12): cfg = backend, cap = class, aux = [start, cell]
+        rec.sub = std::borrow::Cow::Borrowed("scanner");
+        rec.aux = vec![(slot[4] as u64) | ((slot[5] as u64) << 8), slot[3] as u64];
+    }
     rec
 }
 
